@@ -2,6 +2,7 @@ package bloomsearch
 
 import (
 	"math"
+	"reflect"
 )
 
 // MinMaxIndex records the observed numeric range of a field. Values outside
@@ -30,11 +31,30 @@ func ConvertToMinMaxInt64(value any) (minVal int64, maxVal int64, ok bool) {
 	case float64:
 		return floatToMinMaxInt64(v)
 	default:
+		if floatVal, isFloat := namedFloat64(value); isFloat {
+			return floatToMinMaxInt64(floatVal)
+		}
 		intVal, isInt := toInt64(value)
 		if !isInt {
 			return 0, 0, false
 		}
 		return intVal, intVal, true
+	}
+}
+
+// namedFloat64 reports the value of a named floating-point type (for example
+// `type Celsius float64`), which the concrete float32/float64 cases of a type
+// switch do not match.
+func namedFloat64(value any) (float64, bool) {
+	if value == nil {
+		return 0, false
+	}
+	rv := reflect.ValueOf(value)
+	switch rv.Kind() {
+	case reflect.Float32, reflect.Float64:
+		return rv.Float(), true
+	default:
+		return 0, false
 	}
 }
 
@@ -56,6 +76,9 @@ func ConvertToInt64(value any) (int64, bool) {
 	case float64:
 		return floatToInt64(v)
 	default:
+		if floatVal, isFloat := namedFloat64(value); isFloat {
+			return floatToInt64(floatVal)
+		}
 		return toInt64(value)
 	}
 }
@@ -105,7 +128,21 @@ func toInt64(value any) (int64, bool) {
 	case uint64:
 		return clampUint64ToInt64(v), true
 	default:
-		return 0, false
+		// Named integer types (time.Duration, `type ID uint64`, ...) do not
+		// match the concrete cases above; convert by underlying kind so they
+		// are indexed like the plain integer they marshal as.
+		if value == nil {
+			return 0, false
+		}
+		rv := reflect.ValueOf(value)
+		switch rv.Kind() {
+		case reflect.Int, reflect.Int8, reflect.Int16, reflect.Int32, reflect.Int64:
+			return rv.Int(), true
+		case reflect.Uint, reflect.Uint8, reflect.Uint16, reflect.Uint32, reflect.Uint64, reflect.Uintptr:
+			return clampUint64ToInt64(rv.Uint()), true
+		default:
+			return 0, false
+		}
 	}
 }
 
